@@ -2,11 +2,28 @@
    Cao.TableProofs (the table object of Table.v; the hash part of a table is the abstract map licensed by the
    C12 theorems) and in Cao.VmTableProofs / VmTableKeys / VmTableInstr / VmTableNatives (the table
    representation of the VM model Vm.v, the table instructions, reference sharing, preservation of the
-   table invariant by every instruction and native): the C07_vm_* theorems below. *)
+   table invariant by every instruction and native; VmTableRun: the invariant over whole runs, nested runs
+   included, the user's view of a table in the final state, NaN keys): the C07_vm_* theorems below.
+
+   Proved at run level (section 5 below): on every run of the VM - arbitrary bytecode, budget, build, start
+   state with the invariant, any nesting depth of run_function re-entry - on which no executed SetProperty has
+   a key outside the key domain, every state the dispatch loops pass through and the final state satisfy the
+   table invariant; in the final state of a run from a new VM every table iterates its entries once per key
+   value in key-vector order and reads through any key with an equal value find the stored value.  The side
+   condition is stated through the key-checked VM (run_k: the VM with that one run-time check; it satisfies
+   the invariant unconditionally, and a run on which the check never fails IS the key-checked run).
+   Still open: table-valued keys (compared by content, mutable: no invariant of this shape survives them) and
+   dangling addresses as keys; for NaN keys only the behaviour of the table operations is described
+   (C07_vm_nan_key_table, C07_vm_set_property_nan), not a weaker invariant that runs with NaN keys preserve;
+   the legacy budget rule (run_legacy); the states of a run's nested runs are covered by two theorems together
+   (C07_vm_nested_runs_entered_with_invariant: natives enter nested runs only in states with the invariant;
+   C07_vm_tables_wf_nested_run: a run entered in such a state passes only through such states), not by one list
+   of all states of all nesting levels; states INSIDE a native between two nested runs are covered by the native
+   lemmas of VmTableNatives only. *)
 From Coq Require Import Arith NArith ZArith List Bool.
 Import ListNotations.
 From Cao Require Import Table TableProofs.
-From Cao Require Import ListUtil Stacks Vm VmProofs C04VmProofs VmTableProofs VmTableKeys VmTableInstr VmTableNatives.
+From Cao Require Import ListUtil Bits Stacks Vm VmProofs C04VmProofs VmTableProofs VmTableKeys VmTableInstr VmTableNatives VmTableRun VmTableRunOnly.
 
 (* every history of insert / remove / append / pop / get / nth-key / len / iterate / keys on a table
    that starts empty gives exactly the results of the insertion-ordered association list
@@ -354,3 +371,219 @@ Proof.
   - repeat constructor.
   - cbn [kdistinct]. repeat constructor.
 Qed.
+
+
+(* ====================================================================================================== *)
+(* 5. Whole runs, nested runs included (VmTableRun.v)                                                       *)
+(* ====================================================================================================== *)
+
+(* Vocabulary:
+     step_k / loop_k / run_at_k / run_k   the KEY-CHECKED VM: Vm.step / loop / run_at (current budget rule) / run
+                          with one run-time check - a SetProperty whose key (top of the value stack) is outside the
+                          key domain vkey stops the run with the outcome AUnmodelled, which Vm.run never produces;
+                          the nested runs natives start from a key-checked run are key-checked runs
+     loop_states P stp fuel ip s          the states in which the dispatch loop of Vm.loop (step function stp)
+                          dispatches an instruction, in order, then the state it ends in
+     run_at_states F bld P mi d ip s      = loop_states of the run  run_at .. (S d) ip s  (its nested runs are runs
+                          run_at .. (S d') .. with d' < d, to which the same theorem applies)
+     run_states F bld P budget s          = run_at_states of Vm.run's top-level loop (after the entry frame is pushed)
+     key_value h k        the value a key stands for: nil / the integer / the bit pattern of the real / the TEXT of
+                          the string / handle and arity of a function / handle of a native / the identity of a
+                          closure or upvalue cell *)
+
+(* the key-checked VM keeps the invariant unconditionally: any bytecode, build, nesting depth, start address and
+   start state; the heap only grows; every state passed through is covered *)
+Theorem C07_vm_key_checked_run_tables_wf : forall F bld P d ip s,
+  tables_wf F (st_heap s) ->
+  hext (st_heap s) (st_heap (rres_state (run_at_k F bld P (S d) ip s))) /\
+  tables_wf F (st_heap (rres_state (run_at_k F bld P (S d) ip s))) /\
+  Forall (fun x => hext (st_heap s) (st_heap x) /\ tables_wf F (st_heap x))
+         (loop_states P (step_k F bld P (run_at_k F bld P d)) (N.to_nat (st_rem s)) ip s).
+Proof. exact run_at_k_wf. Qed.
+Print Assumptions C07_vm_key_checked_run_tables_wf.
+
+(* a run of the VM on which the check never fails IS the key-checked run *)
+Theorem C07_vm_run_agrees_key_checked : forall F bld P budget s,
+  fst (run_k F bld P budget s) <> OAbort AUnmodelled ->
+  run F bld budget P s = run_k F bld P budget s.
+Proof. exact run_agrees_k. Qed.
+Print Assumptions C07_vm_run_agrees_key_checked.
+
+(* Vm.run: final state and every state the top-level loop passes through *)
+Theorem C07_vm_tables_wf_run : forall F bld P budget s,
+  tables_wf F (st_heap s) ->
+  fst (run_k F bld P budget s) <> OAbort AUnmodelled ->
+  hext (st_heap s) (st_heap (snd (run F bld budget P s))) /\
+  tables_wf F (st_heap (snd (run F bld budget P s))) /\
+  Forall (fun x => hext (st_heap s) (st_heap x) /\ tables_wf F (st_heap x)) (run_states F bld P budget s).
+Proof. exact run_tables_wf. Qed.
+Print Assumptions C07_vm_tables_wf_run.
+
+(* the same for a run at ANY nesting depth, entered at any address from any state with the invariant (this is
+   what run_function starts: reenter = run_at .. d); [mi] is the legacy parameter, unused by the current rule *)
+Theorem C07_vm_tables_wf_nested_run : forall F bld P mi d ip s,
+  tables_wf F (st_heap s) ->
+  (forall x, run_at_k F bld P (S d) ip s <> RStop AUnmodelled x) ->
+  hext (st_heap s) (st_heap (rres_state (run_at F bld P false mi (S d) ip s))) /\
+  tables_wf F (st_heap (rres_state (run_at F bld P false mi (S d) ip s))) /\
+  Forall (fun x => hext (st_heap s) (st_heap x) /\ tables_wf F (st_heap x)) (run_at_states F bld P mi d ip s) /\
+  last (run_at_states F bld P mi d ip s) s = rres_state (run_at F bld P false mi (S d) ip s).
+Proof. exact run_at_tables_wf_nested. Qed.
+Print Assumptions C07_vm_tables_wf_nested_run.
+
+(* insertion order along a run: in every state the run passes through, a SetProperty with a key of the domain on
+   a table of the heap is al_set - value replaced in place when the key is present, entry appended otherwise *)
+Theorem C07_vm_run_set_property_in_order : forall F bld P budget s,
+  tables_wf F (st_heap s) -> fst (run_k F bld P budget s) <> OAbort AUnmodelled ->
+  Forall (fun x =>
+    forall reenter ip0 l a key v t,
+      opcode_at P ip0 = 33%N -> stack_ok x -> stack_of x = l ++ [v; VObj a; key] ->
+      hget (st_heap x) a = Some (OTable t) -> vkey F (st_heap x) key ->
+      exists t' k,
+        step F bld P reenter ip0 x = SNext (ip0 + 1) (set_stack (set_table x a t') k) /\
+        stack_is (cap x) k l /\
+        twf (veq0 F (st_heap x)) (vkey F (st_heap x)) t' /\
+        tabs t' = al_set (veq0 F (st_heap x)) key v (tabs t))
+    (run_states F bld P budget s).
+Proof. exact run_set_property_in_order. Qed.
+Print Assumptions C07_vm_run_set_property_in_order.
+
+(* nested runs are entered only in states with the invariant: when the state of an instruction has it and the
+   nested run keeps it (the contract, proved for run_at_k at every depth by C07_vm_key_checked_run_tables_wf and
+   for run_at on runs without a failed check by C07_vm_tables_wf_nested_run), the result of the instruction -
+   whatever natives it calls, however often they re-enter - does not depend on what the nested run does on states
+   WITHOUT the invariant.  So the runs that natives start are covered by C07_vm_tables_wf_nested_run. *)
+Theorem C07_vm_nested_runs_entered_with_invariant : forall F bld P (re re' : N -> state -> rres),
+  (forall ip s, tables_wf F (st_heap s) -> re ip s = re' ip s) ->
+  (forall ip s, tables_wf F (st_heap s) ->
+     hext (st_heap s) (st_heap (rres_state (re' ip s))) /\ tables_wf F (st_heap (rres_state (re' ip s)))) ->
+  forall ip0 s, tables_wf F (st_heap s) -> step F bld P re ip0 s = step F bld P re' ip0 s.
+Proof. exact step_reenter_only_wf. Qed.
+Print Assumptions C07_vm_nested_runs_entered_with_invariant.
+(* its hypotheses hold for the nested runs of the key-checked VM *)
+Example C07_vm_nested_contract_nonvacuous : forall F bld P d ip s,
+  tables_wf F (st_heap s) ->
+  run_at_k F bld P d ip s = run_at_k F bld P d ip s /\
+  hext (st_heap s) (st_heap (rres_state (run_at_k F bld P d ip s))) /\
+  tables_wf F (st_heap (rres_state (run_at_k F bld P d ip s))).
+Proof. intros F bld P d ip s W. split; [reflexivity|]. exact (run_at_k_contract F bld P d ip s W). Qed.
+
+(* keyed by value: on the key domain the map part's key test is equality of key values (strings by content) *)
+Theorem C07_vm_key_is_value : forall F h a b, vkey F h a -> vkey F h b ->
+  (kb (veq0 F h) a b = true <-> key_value h a = key_value h b).
+Proof. exact kb_is_value_equality. Qed.
+Print Assumptions C07_vm_key_is_value.
+
+(* a table with the invariant as its user sees it: iteration yields the entries in key-vector order, one per key
+   value; a read through ANY key with the value of a stored key returns the value stored under it; a read
+   through a key with another value finds nothing *)
+Theorem C07_vm_table_user_view : forall F h t, twf (veq0 F h) (vkey F h) t ->
+  titer (veq0 F h) t = Some (tabs t) /\
+  map fst (tabs t) = tkeys t /\
+  NoDup (map (key_value h) (tkeys t)) /\
+  (forall k v k2, In (k, v) (tabs t) -> vkey F h k2 -> key_value h k2 = key_value h k ->
+                  tget (veq0 F h) t k2 = Some (Some v)) /\
+  (forall k2, vkey F h k2 -> ~ In (key_value h k2) (map (key_value h) (tkeys t)) ->
+              tget (veq0 F h) t k2 = Some None).
+Proof. exact twf_user_view. Qed.
+Print Assumptions C07_vm_table_user_view.
+
+(* ... and every table object in the final state of a run from a new VM is such a table *)
+Theorem C07_vm_run_fresh_user_view : forall F bld P budget,
+  fst (run_k F bld P budget fresh_state) <> OAbort AUnmodelled ->
+  let h := st_heap (snd (run F bld budget P fresh_state)) in
+  forall a t, hget h a = Some (OTable t) ->
+    titer (veq0 F h) t = Some (tabs t) /\
+    map fst (tabs t) = tkeys t /\
+    NoDup (map (key_value h) (tkeys t)) /\
+    (forall k v k2, In (k, v) (tabs t) -> vkey F h k2 -> key_value h k2 = key_value h k ->
+                    tget (veq0 F h) t k2 = Some (Some v)) /\
+    (forall k2, vkey F h k2 -> ~ In (key_value h k2) (map (key_value h) (tkeys t)) ->
+                tget (veq0 F h) t k2 = Some None).
+Proof. exact run_fresh_tables_user_view. Qed.
+Print Assumptions C07_vm_run_fresh_user_view.
+
+(* 6. NaN keys (outside the key domain).  A real r with r != r matches no stored key, itself included: on EVERY
+      table insert adds a new row to both parts each time, get finds nothing, pop of such a last key shortens the
+      key vector and leaves the row in the map part; on a table with the invariant the new row is invisible to
+      iteration but counted by len, and the invariant is lost. *)
+Theorem C07_vm_nan_key_table : forall F h r, f_cmp F r r <> Some Eq ->
+  (forall t v, tinsert (veq0 F h) t (VReal r) v
+               = Some (mkTable (tmap t ++ [(VReal r, v)]) (tkeys t ++ [VReal r]))) /\
+  (forall t, tget (veq0 F h) t (VReal r) = Some None) /\
+  (forall t ks, tkeys t = ks ++ [VReal r] -> tpop (veq0 F h) t = Some (mkTable (tmap t) ks, VNil)) /\
+  (forall t v, twf (veq0 F h) (vkey F h) t ->
+     let t' := mkTable (tmap t ++ [(VReal r, v)]) (tkeys t ++ [VReal r]) in
+     titer (veq0 F h) t' = Some (tabs t) /\ length (tkeys t') = S (length (tabs t)) /\
+     ~ twf (veq0 F h) (vkey F h) t').
+Proof.
+  intros F h r Hn. split; [exact (nan_key_insert F h r Hn)|]. split; [exact (nan_key_get F h r Hn)|].
+  split; [exact (nan_key_pop F h r Hn) | exact (nan_key_row_invisible F h r Hn)].
+Qed.
+Print Assumptions C07_vm_nan_key_table.
+
+Theorem C07_vm_set_property_nan : forall F bld P reenter ip0 s l a r v t,
+  opcode_at P ip0 = 33%N -> stack_ok s -> stack_of s = l ++ [v; VObj a; VReal r] ->
+  hget (st_heap s) a = Some (OTable t) -> f_cmp F r r <> Some Eq ->
+  exists k,
+    step F bld P reenter ip0 s =
+      SNext (ip0 + 1) (set_stack (set_table s a (mkTable (tmap t ++ [(VReal r, v)]) (tkeys t ++ [VReal r]))) k) /\
+    stack_is (cap s) k l.
+Proof. exact step_set_property_nan. Qed.
+Print Assumptions C07_vm_set_property_nan.
+
+(* ---- examples for section 5 / 6 (vm_compute on hand-assembled bytecode) ---- *)
+Local Open Scope N_scope.
+Definition C07_le32 (n : N) : list N := [n mod 256; (n / 256) mod 256; (n / 65536) mod 256; (n / 16777216) mod 256].
+Definition C07_le64 (n : N) : list N := C07_le32 (n mod 4294967296) ++ C07_le32 (n / 4294967296).
+(* a float instance with one NaN *)
+Definition C07_F1 : fops :=
+  mkFops (fun _ _ => 0) (fun _ _ => 0) (fun _ _ => 0) (fun _ _ => 0)
+         (fun x y => if orb (N.eqb x nan_bits) (N.eqb y nan_bits) then None
+                     else if N.eqb x y then Some Eq else Some Lt)
+         (fun _ => 0) (fun _ => 0%Z).
+
+(* g := {}; g[1] := 7; g[nil] := 8; g[1] := 9   (InitTable, SetGlobalVar 0, then ScalarInt v, ReadGlobalVar 0,
+   key, SetProperty three times, Exit) *)
+Definition C07_prog_a : program := mkProgram
+  ([31; 17] ++ C07_le32 0 ++ [5] ++ C07_le64 7 ++ [18] ++ C07_le32 0 ++ [5] ++ C07_le64 1 ++ [33] ++
+   [5] ++ C07_le64 8 ++ [18] ++ C07_le32 0 ++ [7; 33] ++
+   [5] ++ C07_le64 9 ++ [18] ++ C07_le32 0 ++ [5] ++ C07_le64 1 ++ [33; 10]) [] [] [] [] [].
+Example C07_vm_run_nonvacuous :
+  fst (run_k C07_F1 Debug C07_prog_a 100 fresh_state) = OOk /\
+  (let r := run C07_F1 Debug 100 C07_prog_a fresh_state in (fst r, st_heap (snd r)))
+  = (OOk, [OTable (mkTable [(VInt 1, VInt 9); (VNil, VInt 8)] [VInt 1; VNil])]) /\
+  length (run_states C07_F1 Debug C07_prog_a 100 fresh_state) = 16%nat.
+Proof. vm_compute. repeat split. Qed.
+
+(* a NESTED run that writes a table: main: g := {}; call1(f, 5)   f(x): g[3] := 42; return nil
+   (call1 is the menu native that re-enters the VM through Vm::run_function; label 77 -> address 31) *)
+Definition C07_prog_n : program := mkProgram
+  ([31; 17] ++ C07_le32 0 ++ [37] ++ C07_le32 77 ++ C07_le32 1 ++ [5] ++ C07_le64 5 ++
+   [4] ++ C07_le32 (handle_of_bytes name_call1) ++ [16; 10] ++
+   [5] ++ C07_le64 42 ++ [18] ++ C07_le32 0 ++ [5] ++ C07_le64 3 ++ [33; 7; 22; 10]) [] [(77, 31)] [] [] [].
+Example C07_vm_run_nested_nonvacuous :
+  fst (run_k C07_F1 Debug C07_prog_n 100 fresh_state) = OOk /\
+  (let r := run C07_F1 Debug 100 C07_prog_n fresh_state in (fst r, st_heap (snd r)))
+  = (OOk, [OTable (mkTable [(VInt 3, VInt 42)] [VInt 3]); OFun 77 1]).
+Proof. vm_compute. split; reflexivity. Qed.
+
+(* the side condition is needed: g := {}; g[NaN] := 7; g[NaN] := 8; pop(g).  The key-checked VM stops at the first
+   SetProperty; the VM goes on: two rows for the "same" key, pop returns nil and leaves both rows in the map part
+   while the key vector keeps one key - the parts are no longer aligned *)
+Definition C07_prog_b : program := mkProgram
+  ([31; 17] ++ C07_le32 0 ++ [5] ++ C07_le64 7 ++ [18] ++ C07_le32 0 ++ [6] ++ C07_le64 nan_bits ++ [33] ++
+   [5] ++ C07_le64 8 ++ [18] ++ C07_le32 0 ++ [6] ++ C07_le64 nan_bits ++ [33] ++
+   [18] ++ C07_le32 0 ++ [41; 10]) [] [] [] [] [].
+Example C07_vm_run_nan_key :
+  f_cmp C07_F1 nan_bits nan_bits <> Some Eq /\
+  fst (run_k C07_F1 Debug C07_prog_b 100 fresh_state) = OAbort AUnmodelled /\
+  (let r := run C07_F1 Debug 100 C07_prog_b fresh_state in (fst r, st_heap (snd r), stack_of (snd r)))
+  = (OOk, [OTable (mkTable [(VReal nan_bits, VInt 7); (VReal nan_bits, VInt 8)] [VReal nan_bits])], [VNil]).
+Proof. split; [discriminate|]. vm_compute. split; reflexivity. Qed.
+
+(* two string objects with the same text are the same key value; an integer and a string are not *)
+Example C07_vm_key_value_nonvacuous :
+  key_value C07_h0 (VObj 0) = key_value C07_h0 (VObj 1) /\ key_value C07_h0 (VObj 0) <> key_value C07_h0 (VObj 2) /\
+  vkey C07_F0 C07_h0 (VObj 0) /\ vkey C07_F0 C07_h0 (VObj 1).
+Proof. repeat split. discriminate. Qed.
